@@ -116,7 +116,7 @@ func checkC19(c *core.Ctx) error {
 		}
 		p.cfgs = keep
 		p.mc = []mcRun{
-			{name: "dup,fmap: 0..3 items x cap 0..2", cfgText: mcCfg(`"dup", "fmap"`, 1, 3, 2, true), workers: 2},
+			{name: "dup,fmap: 0..3 items x cap 0..2", cfgText: mcCfg(`"dup", "fmap"`, 1, 3, 2, true), workers: 1},
 			{name: "joinchan: 0..3 inputs x 0..2 items x cap 0", cfgText: mcCfg(`"joinchan"`, 3, 2, 0, true), workers: 4},
 			{name: "joinslice: 0..3 inputs x 0..2 items x cap 0..1", cfgText: mcCfg(`"joinslice"`, 3, 2, 1, true), workers: 4},
 			{name: "joinvar: 2..3 inputs x 0..2 items x cap 0..2", cfgText: mcCfg(`"joinvar"`, 3, 2, 2, true), workers: 4},
